@@ -514,24 +514,31 @@ fn other_rows() -> Vec<Row> {
             h.set_applied_upstream(x.clone());
             let got = d(&h.applied_upstream()); put_edited(h.to_string()); (d(&Some(x)), got, false)
         }, |doc| { d(&dp(doc).applied_upstream()) }),
-        own_row!("dep3::PatchHeader", "description", "Description", "old short\n old long", |doc, r| {
-            let mut h = dp(doc); let x = g_str(r); h.set_description(&x);
-            let got = d(&h.description()); put_edited(h.to_string()); (d(&Some(x)), got, false)
-        }, |doc| { d(&dp(doc).description()) }),
+        // description and long description share one field: setting one must leave the other alone
+        own_row!("dep3::PatchHeader", "description", "Description", "old short\n old long 1\n .\n old long 2", |doc, r| {
+            let mut h = dp(doc); let x = g_str(r); let long_before = h.long_description(); h.set_description(&x);
+            let got = format!("{:?}|{:?}", h.description(), h.long_description()); put_edited(h.to_string());
+            (format!("{:?}|{:?}", Some(x), long_before.or(Some(String::new()))), got, false)
+        }, |doc| { let h = dp(doc); format!("{:?}|{:?}", h.description(), h.long_description()) }),
         // git-format-patch spelling: the description lives in Subject, the author in From
-        Row { view: "dep3::PatchHeader(Subject)", name: "description", field: "Subject", base: "Subject: old short\n old long\n", old: "old short\n old long",
-            setget: |doc, r| { let mut h = dp(doc); let x = g_str(r); h.set_description(&x); let got = d(&h.description()); put_edited(h.to_string()); (d(&Some(x)), got, false) },
-            get: |doc| d(&dp(doc).description()) },
-        Row { view: "dep3::PatchHeader(Subject)", name: "long_description", field: "Subject", base: "Subject: old short\n old long\n", old: "old short\n old long",
-            setget: |doc, r| { let mut h = dp(doc); let x = ["long text", "two\nlines"][r.below(2)].to_string(); h.set_long_description(&x); let got = d(&h.long_description()); put_edited(h.to_string()); (d(&Some(x)), got, false) },
-            get: |doc| d(&dp(doc).long_description()) },
+        Row { view: "dep3::PatchHeader(Subject)", name: "description", field: "Subject", base: "Subject: old short\n old long 1\n .\n old long 2\n", old: "old short\n old long 1\n .\n old long 2",
+            setget: |doc, r| { let mut h = dp(doc); let x = g_str(r); let long_before = h.long_description(); h.set_description(&x);
+                let got = format!("{:?}|{:?}", h.description(), h.long_description()); put_edited(h.to_string());
+                (format!("{:?}|{:?}", Some(x), long_before.or(Some(String::new()))), got, false) },
+            get: |doc| { let h = dp(doc); format!("{:?}|{:?}", h.description(), h.long_description()) } },
+        Row { view: "dep3::PatchHeader(Subject)", name: "long_description", field: "Subject", base: "Subject: old short\n old long 1\n old long 2\n", old: "old short\n old long 1\n old long 2",
+            setget: |doc, r| { let mut h = dp(doc); let x = ["long text", "two\nlines", "a\n.\nb"][r.below(3)].to_string(); let short_before = h.description(); h.set_long_description(&x);
+                let got = format!("{:?}|{:?}", h.long_description(), h.description()); put_edited(h.to_string());
+                (format!("{:?}|{:?}", Some(x), short_before), got, false) },
+            get: |doc| { let h = dp(doc); format!("{:?}|{:?}", h.long_description(), h.description()) } },
         Row { view: "dep3::PatchHeader(From)", name: "author", field: "From", base: "From: Old <o@e.org>\n", old: "Old <o@e.org>",
             setget: |doc, r| { let mut h = dp(doc); let x = g_people(r)[0].clone(); h.set_author(&x); let got = d(&h.author()); put_edited(h.to_string()); (d(&Some(x)), got, false) },
             get: |doc| d(&dp(doc).author()) },
-        own_row!("dep3::PatchHeader", "long_description", "Description", "old short\n old long", |doc, r| {
-            let mut h = dp(doc); let x = ["long text", "two\nlines"][r.below(2)].to_string(); h.set_long_description(&x);
-            let got = d(&h.long_description()); put_edited(h.to_string()); (d(&Some(x)), got, false)
-        }, |doc| { d(&dp(doc).long_description()) }),
+        own_row!("dep3::PatchHeader", "long_description", "Description", "old short\n old long 1\n old long 2", |doc, r| {
+            let mut h = dp(doc); let x = ["long text", "two\nlines", "a\n.\nb"][r.below(3)].to_string(); let short_before = h.description(); h.set_long_description(&x);
+            let got = format!("{:?}|{:?}", h.long_description(), h.description()); put_edited(h.to_string());
+            (format!("{:?}|{:?}", Some(x), short_before), got, false)
+        }, |doc| { let h = dp(doc); format!("{:?}|{:?}", h.long_description(), h.description()) }),
     ]
 }
 
